@@ -22,7 +22,10 @@ structure W where
   backoff : Rat
   xr : Bool
   rest : Rat
-deriving Repr, DecidableEq, Inhabited
+deriving Repr, DecidableEq
+
+/-- an unused slot reads as "absent / does not extend" -/
+instance : Inhabited W := ⟨{ mag := 0, neg := true, backoff := 0, xr := false, rest := 0 }⟩
 
 inductive BErr where
   | format        -- "The context of every n-gram should appear as a (n-1)-gram"
